@@ -5,6 +5,8 @@ Grammar (line oriented; '#' starts a comment line; indentation continues a claus
   @file <path relative to /repo> whole|listed
   @keep struct|impl|fn|const <name-or-header-substring>     (listed mode: copy this item verbatim)
   @dropitem <header substring> -- reason                     (whole mode: leave this item out)
+  @inherent <impl header substring>                          R15: emit this trait impl as an inherent impl (same bodies), so that
+                                                             its methods can carry `requires`; associated types are dropped
   @fn <Key>                                  Key = Self::name | Self as Trait::name | name  [#ordinal]
     ret <ident>                              name for the return value (default r)
     external -- reason                       R10: keep the text, #[verifier::external_body]
@@ -68,6 +70,7 @@ class FileSpec:
         self.path, self.mode = path, mode
         self.keep = []       # (kind, text)
         self.dropitems = []  # (text, reason)
+        self.inherent = []   # R15: trait impls (header substring) emitted as inherent impls
         self.fns = OrderedDict()
 
 
@@ -97,6 +100,8 @@ def parse(path):
         elif s.startswith("@keep "):
             _, kind, rest = s.split(None, 2)
             cur_file.keep.append((kind, rest))
+        elif s.startswith("@inherent "):
+            cur_file.inherent.append(s[len("@inherent "):].strip())
         elif s.startswith("@dropitem "):
             rest = s[len("@dropitem "):]
             text, _, reason = rest.partition(" -- ")
